@@ -72,6 +72,7 @@ func (r *Eval) run(ctx context.Context) (ret Object, err error) {
 	// Always check whether context is done before running VM because
 	// parser and compiler may take longer than expected or context may be
 	// canceled for any reason before run, so use two selects.
+	verifSync("eval.before-run", r.VM)
 	select {
 	case <-ctx.Done():
 		r.VM.Abort()
@@ -79,6 +80,7 @@ func (r *Eval) run(ctx context.Context) (ret Object, err error) {
 	default:
 		go func() {
 			defer close(doneCh)
+			verifSync("eval.goroutine", r.VM)
 			ret, err = r.VM.Run(r.Globals, r.Locals...)
 		}()
 
